@@ -748,3 +748,409 @@ post_save_kv.param_defaults = {"txn": lambda sx, st: Conc(Txn(True)), "log": lam
                                "counter": lambda sx, st: st.env.get("counter")}
 post_save_kv.ghost_havoc = lambda sx, body, st: [st.ghost.__setitem__(g, sx.fresh(st.ghost[g].ty, "g_" + g, st)) for g in ("delete_calls",)]
 post_save_kv.obligation_props = [("delete:inside", ["C07"]), ("delete:only", ["C09", "C08"])]
+
+
+# ---------------------------------------------------------------------------------------------------- execute_one_plan (C12)
+REG.classes["QueryPlan"] = {"limit": V.Opt(V.Int), "since": V.Opt(V.Int), "until": V.Opt(V.Int), "stats": V.Dict(V.Str, V.Real),
+                            "query": V.Opaque("QueryItems"), "index": lambda sx, st, name: Conc(PlanIndex()), "matches": V.Opaque("Matches"),
+                            "__frozen__": ("limit", "since", "until", "query", "index", "matches")}
+
+
+class PlanIndex:
+    def __pyvc_getattr__(self, sx, attr, st, node):
+        if attr == "scanner":
+            return [R(st, Func(lambda sx2, a, k, s, n: [R(s, Conc(IdScanner()))], "plan.index.scanner"))]
+        raise Unsupported("plan.index.%s" % attr, node)
+
+
+class IdScanner:
+    """context manager of an index scan (own unit: Index.scanner); yields candidate ids"""
+
+    def enter(self, sx, st, node):
+        return [R(st, Conc(self)), R(st.fork(), None, Exc("Exception", exact=False))]
+
+    def exit(self, sx, st, exc, node):
+        return [R(st, False)]
+
+
+class ReadTxnCM:
+    def enter(self, sx, st, node):
+        return [R(st, Conc(Txn(False))), R(st.fork(), None, Exc("EngineError", exact=False))]
+
+    def exit(self, sx, st, exc, node):
+        return [R(st, False)]
+
+
+class ReadEnv:
+    def __pyvc_getattr__(self, sx, attr, st, node):
+        if attr == "begin":
+            return [R(st, Func(lambda sx2, a, k, s, n: [R(s, Conc(ReadTxnCM()))], "env.begin"))]
+        raise Unsupported("env.%s" % attr, node)
+
+
+REG.ctx_managers.append((lambda m, st: isinstance(m, Conc) and isinstance(m.v, (IdScanner, ReadTxnCM)), lambda m: m.v))
+
+
+class MatchedEvents:
+    """matcher(txn, scanner, query_items, stats) (own unit): yields stored events that satisfy the residual predicate"""
+
+    def __pyvc_iter__(self, sx, st, node):
+        return ("opaque", self)
+
+    def next(self, sx, st, k):
+        ev = sx.fresh(EVENT, "matched", st)
+        st.ghost["n_matched"] = Val(V.Int, st.ghost["n_matched"].term + 1)
+        return [R(st, ev), R(st.fork(), None, Exc("Exception", exact=False))]
+
+
+@REG.model("matcher")
+def _matcher(sx, args, kwargs, st, node):
+    return [R(st, Conc(MatchedEvents()))]
+
+
+def ghost_plan(sx, st):
+    st.ghost["n_matched"] = V.mk_int(0)
+    st.ghost["clock"] = sx.fresh(V.Real, "clock0", st)
+
+
+EVLIST = V.List(EVENT)
+execute_one_plan = REG.unit(Unit(
+    P, "execute_one_plan",
+    Contract("execute_one_plan", {"plan": V.ObjT("QueryPlan")},
+             ensures=[
+                 # C12: never more than the plan's limit (which planner caps at max_limit), never more than what matched
+                 ("at-most-limit-events", "implies(plan.limit is not None and plan.limit >= 0, len(result[1]) <= plan.limit)"),
+                 ("only-matched-events", "len(result[1]) <= ghost('n_matched')"),
+                 ("returns-its-plan", "True"),
+             ],
+             raises={}),   # C19: a failing scan is logged, the (partial) answer is still returned
+    loops={1: LoopSpec("matches", index="_m", invariants=[
+        ("count-is-len", "count == len(events) and count >= 0"),
+        ("below-limit", "implies(limit is not None and limit >= 0, count <= limit)"),
+        ("only-matched", "len(events) <= ghost('n_matched')"),
+        ("limit-is-plan-limit", "limit == plan.limit"),
+    ])},
+    props=["C12", "C19"], ghost_init=ghost_plan,
+    canaries=[("returns-nothing", "len(result[1]) == 0")],
+))
+execute_one_plan.param_defaults = {"lmdb_environment": lambda sx, st: Conc(ReadEnv()), "log": lambda sx, st: LOGGER}
+execute_one_plan.local_types = {"events": EVLIST}
+execute_one_plan.ghost_havoc = lambda sx, body, st: st.ghost.__setitem__("n_matched", sx.fresh(V.Int, "g_n_matched", st))
+
+
+# ---------------------------------------------------------------------------------------------------- Subscription.run_query (LMDB)
+from .db import CountingQueue, ghost_runq  # noqa: E402
+from .base import CLIENT  # noqa: E402
+
+REG.classes["KVSub"] = {
+    "log": lambda sx, st, name: LOGGER, "sub_id": V.Str, "client_id": CLIENT, "auth_token": V.Opt(TOKEN), "query": V.Opaque("QueryPlans"),
+    "queue": lambda sx, st, name: Conc(CountingQueue()), "storage": V.ObjT("KVSubStorage"),
+    "__frozen__": ("sub_id", "client_id", "queue", "storage", "query"),
+}
+REG.classes["KVSubStorage"] = {"check_output": V.Opt(V.Opaque("OutputValidator")), "stat_collector": lambda sx, st, name: Conc(StatCollector()),
+                               "db": V.Opaque("Env"), "query_pool": V.Opaque("Pool"), "loop": V.Opaque("Loop"), "__frozen__": ("check_output",)}
+
+
+class PlanResults:
+    """executor(env, plans, pool, ...) (ASSUMED; runs execute_one_plan per plan in the thread pool): yields (plan, events)"""
+
+    def __pyvc_iter__(self, sx, st, node):
+        return ("opaque", self)
+
+    def next(self, sx, st, k):
+        evs = sx.fresh(V.List(EVENT), "plan_events", st)
+        return [R(st, Conc((sx.fresh(V.Opaque("Plan"), "plan", st), evs))), R(st.fork(), None, Exc("Exception", exact=False)),
+                R(st.fork(), None, Exc("CancelledError"))]
+
+
+@REG.model("executor")
+def _executor(sx, args, kwargs, st, node):
+    return [R(st, Conc(PlanResults()))]
+
+
+@REG.model("QueryPlans")
+def _queryplans(sx, args, kwargs, st, node):
+    return [R(st, Ref(V.List(V.Opaque("Plan")), st.alloc(Val(V.List(V.Opaque("Plan")), V.List(V.Opaque("Plan")).empty()))))]
+
+
+@REG.model("analyze")
+def _analyze(sx, args, kwargs, st, node):
+    return [R(st, NONE)]
+
+
+def setup_kv_runq(sx, st, params):
+    so = st.getcell(params["self"].cell)
+    st.ghost["own_sub_id"] = so["sub_id"]
+    st.ghost["check_output"] = st.getcell(so["storage"].cell)["check_output"]
+
+
+_NOEOSE = [("no-eose-yet", "ghost('n_eose_put') == 0"), ("counter", "'count' in counter")]
+run_query_kv = REG.unit(Unit(
+    P, "Subscription.run_query",
+    Contract("Subscription.run_query", {"self": V.ObjT("KVSub")},
+             ensures=[("exactly-one-eose-sentinel-at-the-end", "ghost('n_eose_put') == 1")],
+             raises={"CancelledError": True},
+             exc_ensures={"CancelledError": [("at-most-one-eose-when-cancelled", "ghost('n_eose_put') <= 1")]}),
+    loops={1: LoopSpec("plans-validated", index="_a", invariants=_NOEOSE), 2: LoopSpec("events-validated", index="_b", invariants=_NOEOSE),
+           3: LoopSpec("plans", index="_c", invariants=_NOEOSE), 4: LoopSpec("events", index="_d", invariants=_NOEOSE)},
+    props=["C13", "C14"], ghost_init=ghost_runq, setup=setup_kv_runq,
+    canaries=[("never-finishes", "False")],
+))
+run_query_kv.ghost_havoc = lambda sx, body, st: [st.ghost.__setitem__(g, sx.fresh(V.Int, "g_" + g, st)) for g in ("n_eose_put", "n_event_put")]
+run_query_kv.obligation_props = [("put:event-passed", ["C14"]), ("put:", ["C13"]), ("post:", ["C13"]), ("exc", ["C13"]), ("inv:", ["C13"])]
+
+
+# ---------------------------------------------------------------------------------------------------- compile_match_from_query (C01)
+# The residual predicate is python source assembled with f-strings and exec'd.  Filter content must enter that source only as
+# repr() of a str / int / tuple of those (a python literal), or as an integer constant of FIELDS_TO_COLUMNS.
+from .util import Re, Cat, Star, Opt_, Un, Rng, INT, NAMED_RE  # noqa: E402
+
+_NOTQ1 = z3.Intersect(Rng(chr(0x20), chr(0x2FFFF)), z3.Complement(Un(Re("'"), Re("\\"))))
+_NOTQ2 = z3.Intersect(Rng(chr(0x20), chr(0x2FFFF)), z3.Complement(Un(Re('"'), Re("\\"))))
+_ESC = Cat(Re("\\"), Rng(chr(0x20), chr(0x7E)), Star(Un(Rng("0", "9"), Rng("a", "f"), Rng("A", "F"))))
+STRLIT = Un(Cat(Re("'"), Star(Un(_NOTQ1, _ESC)), Re("'")), Cat(Re('"'), Star(Un(_NOTQ2, _ESC)), Re('"')))
+ATOMLIT = Un(STRLIT, INT)
+TUPLELIT = Cat(Re("("), Opt_(Cat(ATOMLIT, Star(Cat(Re(", "), ATOMLIT)), Opt_(Re(",")))), Re(")"))
+PYLIT = Un(ATOMLIT, TUPLELIT)
+NAMED_RE["pyliteral"] = PYLIT
+assume_doc("REPR", "repr() of a str, an int or a tuple of those is a python literal: a quoted string with every quote/backslash/control character "
+                   "escaped, a decimal integer, or a parenthesised comma-separated list of such (language `pyliteral` in contracts/kv.py)")
+QVALUE = V.Opaque("QueryValue")
+
+
+def _repr_model(sx, v, st, node):
+    v = sx.deref(sx.lift(v) if isinstance(v, Conc) else v, st)
+    f = REG.ufun("repr_%s" % V._sname(v.ty), [v.ty.sort()], z3.StringSort())
+    r = Val(V.Str, f(v.term))
+    if isinstance(v.ty, (V._Str, V._Int)) or v.ty == QVALUE:
+        sx.with_class(r, PYLIT, st)
+    return [R(st, r)]
+
+
+REG.repr_model = _repr_model
+
+
+def _qvalue_truthy(sx, v, st):
+    return REG.ufun("qvalue_truthy", [QVALUE.sort()], z3.BoolSort())(v.term)
+
+
+class QValueItems:
+    """iterating a query value (a tuple of strings): opaque strings"""
+
+    def __init__(self, v):
+        self.v = v
+
+    def next(self, sx, st, k):
+        return [R(st, sx.fresh(V.Str, "qitem", st))]
+
+
+def _qvalue_iter(sx, v, st, node):
+    return ("opaque", QValueItems(v))
+
+
+_prev_truthy = SX_truthy = None
+from pyvc.sx import SX as _SX  # noqa: E402
+_orig_truthy = _SX.truthy
+
+
+def _truthy(self, v, st=None):
+    if isinstance(v, Val) and v.ty == QVALUE:
+        return _qvalue_truthy(self, v, st)
+    return _orig_truthy(self, v, st)
+
+
+_SX.truthy = _truthy
+from pyvc import builtins2 as _B2  # noqa: E402
+_orig_iter_elems = _B2.iter_elems
+
+
+def _iter_elems(sx, v, st, node):
+    vv = sx.deref(v, st) if isinstance(v, Ref) else v
+    if isinstance(vv, Val) and vv.ty == QVALUE:
+        return ("qvalue", vv)
+    return _orig_iter_elems(sx, v, st, node)
+
+
+_B2.iter_elems = _iter_elems
+_orig_aac = _B2.any_all_comprehension
+
+
+def _any_all_comp(sx, node, st):
+    comp = node.args[0]
+    rs = sx.ev(comp.generators[0].iter, st)
+    if len(rs) == 1 and rs[0].exc is None and isinstance(rs[0].val, Val) and rs[0].val.ty == QVALUE:
+        # all(len(v) == 64 for v in value): some boolean function of the value
+        f = REG.ufun("qvalue_all_%d" % (abs(hash(ast_text(comp))) % 100000), [QVALUE.sort()], z3.BoolSort())
+        return [R(rs[0].st, Val(V.Bool, f(rs[0].val.term)))]
+    return _orig_aac(sx, node, st)
+
+
+def ast_text(n):
+    import ast as _a
+    return _a.unparse(n)
+
+
+_B2.any_all_comprehension = _any_all_comp
+from pyvc import builtins as _B1  # noqa: E402
+_B1.any_all_comprehension = _any_all_comp
+
+REG.globals["FIELDS_TO_COLUMNS"] = Conc({"id": V.mk_int(1), "created_at": V.mk_int(2), "kind": V.mk_int(3), "pubkey": V.mk_int(4),
+                                         "content": V.mk_int(5), "tags": V.mk_int(6), "sig": V.mk_int(7)})
+
+
+class ConfigFts:
+    def __pyvc_getattr__(self, sx, attr, st, node):
+        if attr == "fts_enabled":
+            return [R(st, sx.fresh(V.Bool, "fts_enabled", st))]
+        raise Unsupported("Config.%s" % attr, node)
+
+
+@REG.model("exec")
+def _exec(sx, args, kwargs, st, node):
+    """exec(compile(source)) -- the generated source is what the hole obligations are about; its execution is not modelled"""
+    st.ghost["compiled_source"] = sx.deref(args[0], st) if isinstance(args[0], Val) else V.mk_str("")
+    if len(args) > 1 and isinstance(args[1], Ref):
+        # the generated source defines `check` in the namespace dict
+        t = V.Dict(V.Str, V.Opaque("Fn"))
+        fn = sx.fresh(V.Opaque("Fn"), "check", st)
+        cur = st.heap.get(args[1].cell)
+        base = cur.term if isinstance(cur, Val) and cur.ty == t else t.empty()
+        st.setcell(args[1].cell, Val(t, t.put(base, z3.StringVal("check"), fn.term)))
+        args[1].ty = t
+    return [R(st, NONE)]
+
+
+@REG.model("compile")
+def _compile(sx, args, kwargs, st, node):
+    return [R(st, args[0])]
+
+
+compile_match = REG.unit(Unit(
+    P, "compile_match_from_query",
+    Contract("compile_match_from_query", {"query_items": V.List(V.Tuple(V.Str, QVALUE))},
+             ensures=[("returns-the-compiled-check", "True")], raises={"KeyError": True}),
+    props=["C01"], canaries=[("never-returns", "False")],
+))
+compile_match.holes = {
+    "__strict__": True,
+    "col": ("column-number", INT),
+    "value": ("python-literal", PYLIT),
+    "key": ("python-literal", PYLIT),
+    "filter_string": ("joined-clauses", z3.Full(z3.ReSort(z3.StringSort()))),
+}
+compile_match.local_types = {"filter_clauses": V.Set(V.Str), "loc": V.Dict(V.Str, V.Opaque("Fn"))}
+
+
+# ---------------------------------------------------------------------------------------------------- KVGarbageCollector.collect (C17)
+class KVCursor:
+    """txn.cursor(): set_range(k) positions at the first key >= k; iternext(values=False) yields the keys from there in byte order"""
+
+    def __pyvc_getattr__(self, sx, attr, st, node):
+        if attr == "set_range":
+            def sr(sx2, a, k, s, n):
+                s.ghost["cursor_start"] = sx2.deref(a[0], s)
+                return [R(s, sx2.fresh(V.Bool, "positioned", s))]
+            return [R(st, Func(sr, "cursor.set_range"))]
+        if attr == "iternext":
+            return [R(st, Func(lambda sx2, a, k, s, n: [R(s, Conc(KeyWalk()))], "cursor.iternext"))]
+        if attr == "close":
+            return [R(st, Func(lambda sx2, a, k, s, n: [R(s, NONE)], "cursor.close"))]
+        raise Unsupported("cursor.%s" % attr, node)
+
+
+class KeyWalk:
+    def __pyvc_iter__(self, sx, st, node):
+        return ("opaque", self)
+
+    def next(self, sx, st, k):
+        key = sx.fresh(V.Bytes, "walk_key", st)
+        st.assume(z3.Select(st.ghost["keys"].term, key.term))          # a key of the store ...
+        st.assume(key.term >= st.ghost["cursor_start"].term)            # ... at or after the seek position (byte order)
+        st.ghost["walk_key"] = key
+        return [R(st, key)]
+
+
+class GCTxn:
+    def __pyvc_getattr__(self, sx, attr, st, node):
+        if attr == "cursor":
+            return [R(st, Func(lambda sx2, a, k, s, n: [R(s, Conc(KVCursor()))], "txn.cursor"))]
+        raise Unsupported("conn.%s" % attr, node)
+
+
+class GCIndex:
+    def __init__(self, name):
+        self.name = name
+
+    def __pyvc_getattr__(self, sx, attr, st, node):
+        if attr == "to_key":
+            def tk(sx2, a, k, s, n):
+                v = sx2.deref(sx2.lift(a[0]) if isinstance(a[0], Conc) else a[0], s)
+                if self.name == "kinds":
+                    return [R(s, Val(V.Bytes, z3.Concat(z3.StringVal("\x02"), BE4(v.term))))]
+                if self.name == "tags":
+                    n0, v0 = v.ty.field(v.term, 0), v.ty.field(v.term, 1)
+                    return [R(s, Val(V.Bytes, z3.Concat(z3.StringVal("\x09"), UTF8(n0), z3.StringVal("\x00"), UTF8(v0))))]
+                raise Unsupported("to_key of %s" % self.name, n)
+            return [R(st, Func(tk, "index.to_key"))]
+        return IndexModel(self.name).__pyvc_getattr__(sx, attr, st, node)
+
+
+REG.classes["KVGarbageCollector"] = {"log": lambda sx, st, name: LOGGER, "storage": V.ObjT("GCStorage")}
+REG.classes["GCStorage"] = {}
+
+
+@REG.method("GCStorage", "delete_event", frame=[])
+def _gc_delete(sx, args, kwargs, st, node):
+    """storage.delete_event(hex id): queues ("del", [id]) for the writer (WriterThread.run 'del' branch)"""
+    hid = sx.deref(args[1], st)
+    lst = st.ghost["to_delete"]
+    st.ghost["deleted_calls"] = Val(V.Int, st.ghost["deleted_calls"].term + 1)
+    st.ghost["last_deleted"] = hid
+    return [R(st, NONE)]
+
+
+def ghost_gc_kv(sx, st):
+    ghost_kv(sx, st)
+    st.ghost["clock"] = sx.fresh(V.Real, "clock0", st)
+    st.ghost["cursor_start"] = V.mk_bytes(b"")
+    st.ghost["walk_key"] = V.mk_bytes(b"")
+    st.ghost["deleted_calls"] = V.mk_int(0)
+    st.ghost["last_deleted"] = V.mk_str("")
+    st.ghost["to_delete"] = V.mk_int(0)
+
+
+def setup_gc_kv(sx, st, params):
+    st.env["INDEXES"] = Conc({"kinds": Conc(GCIndex("kinds")), "tags": Conc(GCIndex("tags"))})
+
+
+IN_EPHEMERAL_RANGE = "walked >= b'\\x02' + be4(20000) and walked <= b'\\x02' + be4(29999)"
+IN_EXPIRATION_RANGE = ("walked >= b'\\x09' + utf8('expiration') + b'\\x00' + utf8('0') and "
+                       "walked <= b'\\x09' + utf8('expiration') + b'\\x00' + utf8(str(int(ghost('clock'))))")
+gc_kv = REG.unit(Unit(
+    P, "KVGarbageCollector.collect",
+    Contract("KVGarbageCollector.collect", {"self": V.ObjT("KVGarbageCollector"), "conn": lambda sx, st, name: Conc(GCTxn())},
+             ensures=[("one-deletion-request-per-collected-id", "ghost('deleted_calls') == result and result >= 0"),
+                      # what the byte-order walk from "0" to str(now) must mean (the tag value is compared as text; for ASCII digit
+                      # strings utf-8 byte order = code-point order)
+                      ("expiration-range-means-earlier-than-now",
+                       "forall(lambda v: ((not str_lt(v, '0')) and (not str_lt(str(int(ghost('clock'))), v))) == "
+                       "(matches(v, 'decimal') and decimal_value(v) < int(ghost('clock'))), v=Str)")],
+             raises={}, returns=V.Int),
+    loops={
+        1: LoopSpec("ephemeral-walk", index="_a", invariants=[("nothing-deleted-yet", "ghost('deleted_calls') == 0")]),
+        2: LoopSpec("expiration-walk", index="_b", invariants=[("nothing-deleted-yet", "ghost('deleted_calls') == 0")]),
+        3: LoopSpec("deletions", index="_c", invariants=[("one-per-id", "ghost('deleted_calls') == _c")], iter_post=[
+            ("deletes-exactly-the-collected-id", "ghost('deleted_calls') == head_deleted_calls + 1 and ghost('last_deleted') == event_id")]),
+    },
+    props=["C17"], ghost_init=ghost_gc_kv, setup=setup_gc_kv,
+    canaries=[("collects-nothing", "result == 0")],
+))
+from . import gc as _gc  # noqa: E402  (str_lt / decimal_value / 'decimal')
+gc_kv.local_types = {"to_del": V.List(V.Str)}
+gc_kv.ghost_havoc = lambda sx, body, st: [st.ghost.__setitem__(g, sx.fresh(st.ghost[g].ty, "g_" + g, st)) for g in ("walk_key", "deleted_calls", "last_deleted")]
+gc_kv.stmt_hints = [
+    # an id is collected only from a key walked inside the range of the scan that is running
+    ("to_del.append(event_id)", {"walked": "key"}, [],
+     [("collected-only-from-the-scanned-range", "(%s) or (%s)" % (IN_EPHEMERAL_RANGE, IN_EXPIRATION_RANGE)),
+      ("collected-id-is-the-keys-id", "event_id == key[-32:].hex()")]),
+]
